@@ -88,6 +88,7 @@ theorem beyond_segCount_not_bound (P : Prims D) (E : Era) (wf : List Bytes → B
 theorem all_segments_covered :
     GV.Gen.SegCounts.segCount.map (·.1) = ["shelley", "allegra", "mary", "alonzo", "babbage", "conway"] ∧
     GV.Gen.SegCounts.arity.map (·.1) = GV.Gen.SegCounts.segCount.map (·.1) ∧
+    GV.Gen.SegCounts.structArity = GV.Gen.SegCounts.arity ∧
     eras.length = 6 ∧
     (∀ p ∈ eras, p.2.segCount = p.2.arity ∧ 2 ≤ p.2.segCount) ∧
     GV.Gen.SegCounts.dijkstraArity = 2 ∧ GV.Gen.SegCounts.dijkstraFields = 2 := by
@@ -95,7 +96,7 @@ theorem all_segments_covered :
 
 theorem eraOf_covered (name : String) (E : Era) (h : eraOf name = some E) : E.segCount = E.arity := by
   obtain ⟨p, hp, hv⟩ := lookup_mem eras name E h
-  have := (all_segments_covered.2.2.2.1 p hp).1
+  have := (all_segments_covered.2.2.2.2.1 p hp).1
   rw [hv] at this
   exact this
 
